@@ -53,10 +53,27 @@ def work(case):
     for k, op in enumerate(ops):
         before = {(ph, p["name"]): [r.run_id for r in dec.runs_from(PL.phname(ph), PL.patname(p["name"]))]
                   for ph, p in singles}
+        remembered = set()
+        if op[0] == "remote":
+            c0, h0, _ = dec.snapshot()
+            remembered = {r.run_id for r in c0} | {r.run_id for r in h0}
         o, lists = SD.apply_op(dec, rec, op)
         out += o
         if lists is None:
             break
+        if op[0] == "remote" and fail is None:
+            # a run the peer reports as active (not finished by the same message, not remembered as finished here)
+            # must leave the singleton pattern with exactly one active run: the new run starts as soon as the old
+            # one has completed or halted, also when both arrive in one message
+            fin_ids = {str(r["id"]) for kk in ("comp", "halt") for r in op[1][kk]}
+            for ph, p in singles:
+                live = [r for r in op[1]["upd"] if r["ph"] == ph and r["pat"] == p["name"]
+                        and str(r["id"]) not in fin_ids and str(r["id"]) not in remembered]
+                if live and len(dec.runs_from(PL.phname(ph), PL.patname(p["name"]))) != 1:
+                    fail = dict(signature="singleton-remote-run-not-started", step=k,
+                                what="a message reports run %s of singleton pattern %s as active, but afterwards the instance holds "
+                                     "%d runs of it" % (live[0]["id"], PL.patname(p["name"]),
+                                                        len(dec.runs_from(PL.phname(ph), PL.patname(p["name"])))), detail=None)
         for ph, p in singles:
             runs = dec.runs_from(PL.phname(ph), PL.patname(p["name"]))
             if len(runs) > 1 and fail is None:
